@@ -141,13 +141,28 @@ def packing_ctor():
     return _CACHE["pctor"]
 
 
-def make_instance(eng, reps, name="i", maxdim=MAXDIM):
+def instance_domain(W, H, items):
+    """documented validity predicate of binpacking2d.Instance (hand-written; the constructor-domain job of
+    C01 checks that the real constructor accepts exactly this set)"""
+    mx = z3.If(W >= H, W, H)
+    mn = z3.If(W >= H, H, W)
+    cs = [W >= 1, W <= MAXDIM, H >= 1, H <= MAXDIM]
+    for (w, h, r) in items:
+        w, h = lift(w), lift(h)
+        cs += [w >= 1, w <= mx, h >= 1, h <= mx, z3.Not(z3.And(w > mn, h > mn))]
+    return z3.And(*cs)
+
+
+def make_instance(eng, reps, name="i", maxdim=MAXDIM, assume_domain=True):
     """Run the real constructor on symbolic bin/item sizes with the given concrete multiplicities.
-    Paths on which the constructor raises end as legitimate outcomes (Abort)."""
+    With assume_domain the documented validity predicate is assumed first (so the constructor's range checks
+    do not fork); paths on which the constructor raises end as legitimate outcomes (Abort)."""
     f, Instance = instance_ctor()
     W, H = fresh_int("W"), fresh_int("H")
     nd = len(reps)
     matrix = [[fresh_int(f"w{i}"), fresh_int(f"h{i}"), int(reps[i])] for i in range(nd)]
+    if assume_domain:
+        eng.assume(instance_domain(W.e, H.e, [(m[0], m[1], m[2]) for m in matrix]))
     try:
         out = xform.call_block(f, cls=Instance, name=name, bin_width=W, bin_height=H, matrix=matrix)
     except (ValueError, TypeError):
@@ -196,7 +211,7 @@ def feasible(X, inst, W, H, nb, check_counts=True):
             cs.append(z3.Sum([z3.If(X[i][0] == k + 1, 1, 0) for i in range(n)]) == lift(inst[k, 2]))
     for k in range(1, n + 1):
         cs.append(z3.Implies(k <= nb, z3.Or(*[X[i][1] == k for i in range(n)])))
-    cs.append(nb >= 1)
+    cs += [nb >= 1, nb <= n]       # n rows can fill at most n bins
     return z3.And(*cs)
 
 
@@ -269,3 +284,42 @@ def real_decode(enc, W, H, items, x, garbage=77):
     y.fill(min(garbage, int(np.iinfo(y.dtype).max)))
     e.decode(np.array(x, dtype=np.int64), y)
     return inst, y, [[int(v) for v in row] for row in y], int(y.n_bins)
+
+
+_DECODE_CODE = """
+import sys, json
+sys.path.insert(0, %r)
+from harness import pack_common as P
+inst, y, rows, nb = P.real_decode(W["enc"], W["W"], W["H"], [tuple(i) for i in W["items"]], W["x"])
+print("RESULT " + json.dumps(dict(rows=rows, n_bins=nb, dtype=str(y.dtype))))
+"""
+
+
+def real_decode_guarded(enc, W, H, items, x, timeout=60):
+    """real_decode in a fresh interpreter with a time limit: the compiled kernel may not terminate on a
+    counterexample (wrapped coordinates).  Returns dict(rows, n_bins, dtype) or dict(timeout=True) / dict(error=...)"""
+    import json
+    import os
+    import subprocess
+    root = os.path.dirname(os.path.dirname(os.path.abspath(__file__)))
+    py = os.path.join(root, ".venv", "bin", "python")
+    payload = json.dumps(dict(enc=enc, W=W, H=H, items=[list(i) for i in items], x=list(x)))
+    code = "import sys, json\nW = json.loads(sys.argv[1])\n" + (_DECODE_CODE % root)
+    try:
+        p = subprocess.run([py, "-c", code, payload], capture_output=True, text=True, timeout=timeout)
+    except subprocess.TimeoutExpired:
+        return dict(timeout=True)
+    for line in p.stdout.splitlines():
+        if line.startswith("RESULT "):
+            return json.loads(line[7:])
+    return dict(error=(p.stderr or p.stdout)[-400:])
+
+
+def small_witness_prefs(nd):
+    """preference constraints for counterexample models: the real constructor's lower-bound routine loops over
+    0..bin_height/2, so replayable witnesses need a small bin height (and preferably small everything)"""
+    W, H = z3.Int("W"), z3.Int("H")
+    dims = [W, H] + [z3.Int(f"w{i}") for i in range(nd)] + [z3.Int(f"h{i}") for i in range(nd)]
+    small_items = z3.And(*[d <= 40 for d in dims[2:]])
+    return [z3.And(*[d <= 40 for d in dims]), z3.And(*[d <= 2000 for d in dims]), z3.And(H <= 60, W <= 10 ** 6, small_items),
+            z3.And(H <= 60, small_items), z3.And(W <= 60, small_items), z3.And(H <= 60, W <= 10 ** 6), H <= 60, H <= 5000, H <= 10 ** 6]
